@@ -841,3 +841,200 @@ Proof.
   split; [exact (proj1 ex_host_RT)|]. split; [exact (proj1 splice_canon_examples)|]. split; [exact (proj2 splice_canon_examples)|].
   exact splice_inhabited.
 Qed.
+
+(* 19. WHOLE-URL parser agreement for set_path and set_host(Some) - the two setters section 18 left at the state level.
+   For a canonical record u WITH an authority (both classes: non-special scheme, special non-file scheme):
+   - set_path(x), x free of '?' and '#' (the parser ends the path there, the setter encodes them) and EMPTY OR '/'-LED
+     (path_arg_ok; otherwise the spliced text continues the host or port text: it is not a splice of the path), and -
+     only when the URL has neither query nor fragment - not ending in a C0 control or space: parse_url on
+     front ++ x ++ "?query#fragment" returns exactly the setter's record; the setter's record is the canonical record
+     with the path the parser's path-start state writes for x (Proofs/C06_SplicePath.v: set_path_auth).
+   - set_host(Some x), x free of TAB/LF/CR, ':' '/' '?' '#' '[' ']' '@' (and '\' for a special scheme) - hostarg: the
+     characters at which the parser's '@' / host scan stops or switches mode while the setter hands x to the host
+     parser whole -, not ending in C0/space when nothing follows the host; excluded result (empty_host_ok): the EMPTY
+     host on a special URL or a URL with credentials or a port (F-C02-4): parse_url on
+     "scheme://userinfo" ++ x ++ ":port/path?query#fragment" returns exactly the setter's record
+     (Proofs/C06_SpliceHost.v: set_host_auth computes it: auth_url .. h' .. with h' the host the parser of the scheme
+     type returns for x).
+   Both results are canonical again (C06_set_path_Canon, C06_set_host_Canon), so the theorems apply along histories.
+   NOT covered: a '\'-led path argument on a special URL (the parser reads it as '/'; the state-level theorem
+   C06_parser_agreement_set_path covers it), bracketed IPv6 host arguments, the authority-less layouts, file URLs. *)
+From RU Require Import Proofs.C02_Reach3 Proofs.C06_SplicePath Proofs.C06_SpliceHost Proofs.C06_SpliceEx2 Proofs.C06_All.
+
+Theorem C06_splice_agreement_set_path : forall dbg hp hpo hd u x u', HostRT hp hpo hd -> Canon hp hpo hd u ->
+  has_authority_b u = true -> usv_list x -> forallb no_qh x = true -> path_arg_ok x ->
+  (query_start u = None -> fragment_start u = None -> first_ok (rev x)) ->
+  set_path dbg u x = Some u' -> nlen (ser u') <= U32_MAX_P ->
+  parse_url dbg hp hpo hd None None (splice_path u x) = POk u'.
+Proof. intros dbg hp hpo hd u x u' HRT. exact (splice_agreement_set_path dbg hp hpo hd HRT u x u'). Qed.
+Check C06_splice_agreement_set_path : forall dbg hp hpo hd u x u', HostRT hp hpo hd -> Canon hp hpo hd u ->
+  has_authority_b u = true -> usv_list x -> forallb no_qh x = true -> path_arg_ok x ->
+  (query_start u = None -> fragment_start u = None -> first_ok (rev x)) ->
+  set_path dbg u x = Some u' -> nlen (ser u') <= U32_MAX_P ->
+  parse_url dbg hp hpo hd None None (splice_path u x) = POk u'.
+Print Assumptions C06_splice_agreement_set_path.
+
+Theorem C06_splice_agreement_set_host : forall dbg hp hpo hd u x u', HostRT hp hpo hd -> host_above hp hpo hd ->
+  Canon hp hpo hd u -> has_authority_b u = true -> usv_list x -> forallb (hostarg (sp_of u)) x = true ->
+  (nskipn (host_end u) (ser u) = [] -> first_ok (rev x)) ->
+  set_host dbg hp hpo hd u (Some x) = Some (u', SOk) -> empty_host_ok u u' -> nlen (ser u') <= U32_MAX_P ->
+  parse_url dbg hp hpo hd None None (splice_host u x) = POk u'.
+Proof. intros dbg hp hpo hd u x u' HRT HAb. exact (splice_agreement_set_host dbg hp hpo hd HRT HAb u x u'). Qed.
+Check C06_splice_agreement_set_host : forall dbg hp hpo hd u x u', HostRT hp hpo hd -> host_above hp hpo hd ->
+  Canon hp hpo hd u -> has_authority_b u = true -> usv_list x -> forallb (hostarg (sp_of u)) x = true ->
+  (nskipn (host_end u) (ser u) = [] -> first_ok (rev x)) ->
+  set_host dbg hp hpo hd u (Some x) = Some (u', SOk) -> empty_host_ok u u' -> nlen (ser u') <= U32_MAX_P ->
+  parse_url dbg hp hpo hd None None (splice_host u x) = POk u'.
+Print Assumptions C06_splice_agreement_set_host.
+
+Theorem C06_set_path_Canon : forall dbg hp hpo hd u x u', HostRT hp hpo hd -> Canon hp hpo hd u ->
+  has_authority_b u = true -> usv_list x -> forallb no_qh x = true -> path_arg_ok x ->
+  set_path dbg u x = Some u' -> nlen (ser u') <= U32_MAX_P -> Canon hp hpo hd u'.
+Proof. intros dbg hp hpo hd u x u' HRT. exact (set_path_Canon dbg hp hpo hd HRT u x u'). Qed.
+Check C06_set_path_Canon : forall dbg hp hpo hd u x u', HostRT hp hpo hd -> Canon hp hpo hd u ->
+  has_authority_b u = true -> usv_list x -> forallb no_qh x = true -> path_arg_ok x ->
+  set_path dbg u x = Some u' -> nlen (ser u') <= U32_MAX_P -> Canon hp hpo hd u'.
+Print Assumptions C06_set_path_Canon.
+
+Theorem C06_set_host_Canon : forall dbg hp hpo hd u x u', HostRT hp hpo hd -> host_above hp hpo hd ->
+  Canon hp hpo hd u -> has_authority_b u = true -> forallb (hostarg (sp_of u)) x = true ->
+  set_host dbg hp hpo hd u (Some x) = Some (u', SOk) -> empty_host_ok u u' -> nlen (ser u') <= U32_MAX_P ->
+  Canon hp hpo hd u'.
+Proof. intros dbg hp hpo hd u x u' HRT HAb. exact (set_host_Canon dbg hp hpo hd HRT HAb u x u'). Qed.
+Check C06_set_host_Canon : forall dbg hp hpo hd u x u', HostRT hp hpo hd -> host_above hp hpo hd ->
+  Canon hp hpo hd u -> has_authority_b u = true -> forallb (hostarg (sp_of u)) x = true ->
+  set_host dbg hp hpo hd u (Some x) = Some (u', SOk) -> empty_host_ok u u' -> nlen (ser u') <= U32_MAX_P ->
+  Canon hp hpo hd u'.
+Print Assumptions C06_set_host_Canon.
+
+(* the hypotheses are met (ex_hp / ex_hd satisfy HostRT and host_above; qx_u = "a://h:80/p?q#f" and sx_u = "http://u:p@h/p"
+   are canonical: C06_splice_agreement_inhabited): the spliced texts are "a://h:80/a b/../c?q#f" (result "a://h:80/c?q#f"),
+   "http://u:p@h/x y", "a://h:80?q#f" (empty argument), "a://x.y:80/p?q#f", "http://u:p@abc/p" *)
+Example C06_splice_agreement2_inhabited :
+  has_authority_b qx_u = true /\ has_authority_b sx_u = true
+  /\ splice_case (set_path true qx_u (B "/a b/../c")) (splice_path qx_u (B "/a b/../c")) (B "a://h:80/a b/../c?q#f") "a://h:80/c?q#f"
+  /\ forallb no_qh (B "/a b/../c") = true /\ path_arg_ok (B "/a b/../c")
+  /\ splice_case (set_path true sx_u (B "/x y")) (splice_path sx_u (B "/x y")) (B "http://u:p@h/x y") "http://u:p@h/x%20y"
+  /\ first_ok (rev (B "/x y"))
+  /\ splice_case (set_path true qx_u []) (splice_path qx_u []) (B "a://h:80?q#f") "a://h:80?q#f"
+  /\ splice_case (ok_of (set_host true ex_hp ex_hp ex_hd qx_u (Some (B "x.y")))) (splice_host qx_u (B "x.y")) (B "a://x.y:80/p?q#f") "a://x.y:80/p?q#f"
+  /\ forallb (hostarg (sp_of qx_u)) (B "x.y") = true
+  /\ splice_case (ok_of (set_host true ex_hp ex_hp ex_hd sx_u (Some (B "abc")))) (splice_host sx_u (B "abc")) (B "http://u:p@abc/p") "http://u:p@abc/p"
+  /\ forallb (hostarg (sp_of sx_u)) (B "abc") = true.
+Proof. exact splice2_inhabited. Qed.
+
+(* 20. auth_end_ok - the premise of C06_frame_path - beyond parse results (C06_auth_end_parse): it holds of EVERY
+   canonical record, hence (C02: ReachC2_Canon; below: ReachC6) of tail-join results and along histories of the
+   canonical setters, query_pairs_mut sessions, set_path and set_host(Some) steps.  So does the invariant wfh.
+   NOT covered: file URLs (outside Canon; auth_end_ok is vacuous for the file scheme, but the scheme of a history's
+   record is not tracked there), joins other than tail references. *)
+Theorem C06_auth_end_canon : forall hp hpo hd u, Canon hp hpo hd u -> auth_end_ok u.
+Proof. exact Canon_auth_end_ok. Qed.
+Check C06_auth_end_canon : forall hp hpo hd u, Canon hp hpo hd u -> auth_end_ok u.
+Print Assumptions C06_auth_end_canon.
+
+Theorem C06_wfh_canon : forall hp hpo hd u, HostRT hp hpo hd -> Canon hp hpo hd u -> wfh u.
+Proof. intros hp hpo hd u HRT. exact (Canon_wfh true hp hpo hd HRT u). Qed.
+Check C06_wfh_canon : forall hp hpo hd u, HostRT hp hpo hd -> Canon hp hpo hd u -> wfh u.
+Print Assumptions C06_wfh_canon.
+
+(* 21. THE ASSEMBLY.  ReachC6 (Proofs/C06_All.v) = C02's ReachC2 - Url::parse of an input with a non-file scheme, joins
+   of a tail reference ("", "?q", "#f", "?q#f"), the ten canonical operations (set_fragment, set_query, set_port,
+   set_password, set_username and the quirks setters username / password / port / search / hash, every argument),
+   query_pairs_mut sessions - extended by set_path steps (argument '?'/'#'-free, empty or '/'-led) and
+   set_host(Some) steps (argument in hostarg, result outside F-C02-4) on URLs with an authority.
+   For every record u of such a history (host functions: C02's HostRT and host_above, both proved of the host model
+   under the IDNA hypothesis in C02/C09):
+     - failure: C06_atomic (every record whatsoever, every status-returning mutator);
+     - u is canonical (Canon), satisfies the invariant wfh and the premise auth_end_ok of the path theorems - so
+       C06_frame, C06_get, C06_couple, C06_wf, C06_nopanic, C06_frame_path and the four path-layout theorems apply to it;
+     - all_calls u: for a successful set_fragment / set_query / set_port / set_password / set_username / set_path /
+       set_host(Some) the result is canonical again (so all of this applies to it in turn), every component outside
+       the touched one reads the same, the touched one reads back as the text the parser state writes for the argument,
+       and - for arguments in the exact classes of sections 18 and 19 - Parser::parse_url on the old serialization with
+       the raw argument spliced in returns exactly the setter's record.
+   NOT in the assembly: removal calls (None / empty arguments; frame, get and couplings are in C06_frame / C06_get /
+   C06_couple for every wfh record, the canonical result in C02's set_*_Canon), set_scheme (no splice), set_ip_host,
+   path_segments_mut sessions (frame: C06_frame_path), the authority-less layouts for set_path / set_host, file URLs,
+   joins of non-tail references. *)
+Definition C06_all_statement : Prop := forall dbg hp hpo hd u, HostRT hp hpo hd -> host_above hp hpo hd ->
+  ReachC6 dbg hp hpo hd u ->
+  Canon hp hpo hd u /\ wfh u /\ auth_end_ok u /\ all_calls dbg hp hpo hd u.
+
+Theorem C06_all : C06_all_statement.
+Proof. exact all_reach. Qed.
+Check C06_all : forall dbg hp hpo hd u, HostRT hp hpo hd -> host_above hp hpo hd ->
+  ReachC6 dbg hp hpo hd u ->
+  Canon hp hpo hd u /\ wfh u /\ auth_end_ok u /\ all_calls dbg hp hpo hd u.
+Print Assumptions C06_all.
+
+(* the same for every canonical record, reachable or not *)
+Theorem C06_all_canon : forall dbg hp hpo hd u, HostRT hp hpo hd -> host_above hp hpo hd -> Canon hp hpo hd u ->
+  all_calls dbg hp hpo hd u.
+Proof. exact all_canon. Qed.
+Check C06_all_canon : forall dbg hp hpo hd u, HostRT hp hpo hd -> host_above hp hpo hd -> Canon hp hpo hd u ->
+  all_calls dbg hp hpo hd u.
+Print Assumptions C06_all_canon.
+
+(* ReachC6 contains C02's histories *)
+Theorem C06_reach_c2 : forall dbg hp hpo hd u, ReachC2 dbg hp hpo hd u -> ReachC6 dbg hp hpo hd u.
+Proof. exact ReachC2_C6. Qed.
+Check C06_reach_c2 : forall dbg hp hpo hd u, ReachC2 dbg hp hpo hd u -> ReachC6 dbg hp hpo hd u.
+Print Assumptions C06_reach_c2.
+
+(* all_calls, spelled out (the definition of Proofs/C06_All.v, pinned here) *)
+Theorem C06_all_calls_unfold : forall dbg hp hpo hd u, all_calls dbg hp hpo hd u <->
+  (forall x u', usv_list x -> set_fragment dbg u (Some x) = Some u' -> nlen (ser u') <= U32_MAX_P ->
+     Canon hp hpo hd u' /\ unchanged_but_fragment dbg u u' /\ path u' = path u
+     /\ fragment dbg u' = Some (Some (tnl_text T_FRAGMENT x))
+     /\ (first_ok (rev (35 :: x)) -> parse_url dbg hp hpo hd None None (splice_fragment u x) = POk u'))
+  /\ (forall x u', usv_list x -> set_query dbg u (Some x) = Some u' -> nlen (ser u') <= U32_MAX_P ->
+     Canon hp hpo hd u' /\ unchanged_but_query dbg u u' /\ path u' = path u
+     /\ query dbg u' = Some (Some (query_text u x))
+     /\ (no_hash x = true -> (fragment_start u = None -> first_ok (rev (63 :: x))) ->
+         parse_url dbg hp hpo hd None None (splice_query u x) = POk u'))
+  /\ (forall n u', n <= 65535 -> set_port dbg u (Some n) = Some (u', SOk) -> nlen (ser u') <= U32_MAX_P ->
+     Canon hp hpo hd u' /\ same_ids dbg u u' /\ same_back dbg u u'
+     /\ (exists sch, scheme u = Some sch /\ port u' = norm_port sch (Some n))
+     /\ parse_url dbg hp hpo hd None None (splice_port u n) = POk u')
+  /\ (forall y u', usv_list y -> set_password dbg u (Some y) = Some (u', SOk) -> nlen (ser u') <= U32_MAX_P ->
+     Canon hp hpo hd u'
+     /\ (scheme u' = scheme u /\ username dbg u' = username dbg u /\ host_str u' = host_str u /\ port u' = port u
+         /\ same_back dbg u u')
+     /\ password dbg u' = Some (match y with c :: r => Some (userinfo_enc (c :: r)) | [] => None end)
+     /\ (y <> [] -> forallb (plainc (sp_of u)) y = true ->
+         parse_url dbg hp hpo hd None None (splice_password u y) = POk u'))
+  /\ (forall x u', usv_list x -> set_username dbg u x = Some (u', SOk) -> nlen (ser u') <= U32_MAX_P ->
+     Canon hp hpo hd u'
+     /\ (scheme u' = scheme u /\ password dbg u' = password dbg u /\ host_str u' = host_str u /\ port u' = port u
+         /\ same_back dbg u u')
+     /\ (exists cur, username dbg u = Some cur
+           /\ username dbg u' = Some (if list_eqb cur (utf8_encode x) then cur else userinfo_enc x))
+     /\ (forallb (fun c => plainc (sp_of u) c && negb (c =? 58)) x = true ->
+         parse_url dbg hp hpo hd None None (splice_username u x) = POk u'))
+  /\ (forall x u', has_authority_b u = true -> usv_list x -> set_path dbg u x = Some u' -> nlen (ser u') <= U32_MAX_P ->
+     wfh u' /\ same_front dbg u u' /\ query dbg u' = query dbg u /\ fragment dbg u' = fragment dbg u
+     /\ (exists P, path u' = Some P /\ new_path_ok P)
+     /\ (forallb no_qh x = true -> path_arg_ok x ->
+         Canon hp hpo hd u'
+         /\ ((query_start u = None -> fragment_start u = None -> first_ok (rev x)) ->
+             parse_url dbg hp hpo hd None None (splice_path u x) = POk u')))
+  /\ (forall x u', has_authority_b u = true -> forallb (hostarg (sp_of u)) x = true ->
+     set_host dbg hp hpo hd u (Some x) = Some (u', SOk) -> empty_host_ok u u' -> nlen (ser u') <= U32_MAX_P ->
+     Canon hp hpo hd u'
+     /\ (exists h, (if sp_of u then hp x else hpo x) = Ok h /\ host_set_post dbg hd u u' h)
+     /\ (usv_list x -> (nskipn (host_end u) (ser u) = [] -> first_ok (rev x)) ->
+         parse_url dbg hp hpo hd None None (splice_host u x) = POk u')).
+Proof. intros dbg hp hpo hd u. unfold all_calls. split; intros H; exact H. Qed.
+Print Assumptions C06_all_calls_unfold.
+
+(* non-vacuity: a ReachC6 history with the host functions ex_hp / ex_hd - parse "a://h:80/p?q#f", set_path("/a b/../c"),
+   set_host(Some "x.y"), set_fragment(Some "g") - ends in "a://x.y:80/c?q#g" *)
+Example C06_all_inhabited :
+  HostRT ex_hp ex_hp ex_hd /\ host_above ex_hp ex_hp ex_hd
+  /\ exists u1 u2 u3, ReachC6 true ex_hp ex_hp ex_hd qx_u
+    /\ set_path true qx_u (B "/a b/../c") = Some u1 /\ ReachC6 true ex_hp ex_hp ex_hd u1
+    /\ set_host true ex_hp ex_hp ex_hd u1 (Some (B "x.y")) = Some (u2, SOk) /\ ReachC6 true ex_hp ex_hp ex_hd u2
+    /\ set_fragment true u2 (Some (B "g")) = Some u3 /\ ReachC6 true ex_hp ex_hp ex_hd u3
+    /\ ser u3 = B "a://x.y:80/c?q#g".
+Proof. split; [exact (proj1 ex_host_RT)|]. split; [exact (proj2 ex_host_RT) | exact reach6_inhabited]. Qed.
